@@ -527,7 +527,32 @@ where
             if (*kptr).0 != 0 {
                 self.count -= 1;
                 *kptr = Handle(0);
-                Some(std::ptr::read(self.values.as_ptr().add(ind)))
+                let result = std::ptr::read(self.values.as_ptr().add(ind));
+
+                // move the following members of the probe chain back, so that lookups which
+                // would have passed over the removed bucket still find them
+                let len_mask = self.capacity - 1;
+                let handles = self.handles.as_ptr();
+                let values = self.values.as_ptr();
+                let mut i = ind; // the empty bucket
+                let mut j = (i + 1) & len_mask;
+                while (*handles.add(j)).0 != 0 {
+                    let home = ((*handles.add(j)).0.wrapping_mul(2654435769) as usize) & len_mask;
+                    // the item may stay if its home bucket lies (cyclically) in (i, j]
+                    let reachable = if i <= j {
+                        i < home && home <= j
+                    } else {
+                        i < home || home <= j
+                    };
+                    if !reachable {
+                        *handles.add(i) = *handles.add(j);
+                        *handles.add(j) = Handle(0);
+                        std::ptr::copy_nonoverlapping(values.add(j), values.add(i), 1);
+                        i = j;
+                    }
+                    j = (j + 1) & len_mask;
+                }
+                Some(result)
             } else {
                 None
             }
